@@ -210,6 +210,7 @@ func (a *footnoteASTTransformer) Transform(node *gast.Document, reader text.Read
 	if list == nil {
 		return
 	}
+	fnlist = renumberRenderedFootnotes(node, list, fnlist)
 
 	counter := map[int]int{}
 	if fnlist != nil {
@@ -267,6 +268,79 @@ func (a *footnoteASTTransformer) Transform(node *gast.Document, reader text.Read
 	}
 
 	node.AppendChild(node, list)
+}
+
+// renumberRenderedFootnotes returns the references that are going to be rendered and
+// numbers the footnotes by their first rendered reference. A reference in an image
+// description is rendered as plain text, and a reference inside a footnote that is
+// itself never referenced disappears together with that footnote; such references
+// must neither keep a footnote alive nor get a back-link. Footnotes without a
+// rendered reference get the index -1 (unreferenced).
+func renumberRenderedFootnotes(doc gast.Node, list *ast.FootnoteList,
+	fnlist []*ast.FootnoteLink) []*ast.FootnoteLink {
+	byIndex := map[int]*ast.Footnote{}
+	for fn := list.FirstChild(); fn != nil; fn = fn.NextSibling() {
+		if f := fn.(*ast.Footnote); f.Index >= 0 {
+			byIndex[f.Index] = f
+		}
+	}
+	owners := make([]*ast.Footnote, len(fnlist))
+	rendered := make([]bool, len(fnlist))
+	for i, fnlink := range fnlist {
+		var top gast.Node = fnlink
+		inImage := false
+		for p := fnlink.Parent(); p != nil; p = p.Parent() {
+			if p.Kind() == gast.KindImage {
+				inImage = true
+			}
+			if f, ok := p.(*ast.Footnote); ok && owners[i] == nil {
+				owners[i] = f
+			}
+			top = p
+		}
+		rendered[i] = !inImage && top == doc
+	}
+	alive := map[*ast.Footnote]bool{}
+	for changed := true; changed; {
+		changed = false
+		for i, fnlink := range fnlist {
+			f := byIndex[fnlink.Index]
+			if f == nil || alive[f] || !rendered[i] {
+				continue
+			}
+			if owners[i] == nil || alive[owners[i]] {
+				alive[f] = true
+				changed = true
+			}
+		}
+	}
+	newIndex := map[*ast.Footnote]int{}
+	var result []*ast.FootnoteLink
+	var indices []int
+	for i, fnlink := range fnlist {
+		f := byIndex[fnlink.Index]
+		if f == nil || !rendered[i] || (owners[i] != nil && !alive[owners[i]]) {
+			continue
+		}
+		if _, ok := newIndex[f]; !ok {
+			newIndex[f] = len(newIndex) + 1
+		}
+		result = append(result, fnlink)
+		indices = append(indices, newIndex[f])
+	}
+	for i, fnlink := range result {
+		fnlink.Index = indices[i]
+	}
+	for fn := list.FirstChild(); fn != nil; fn = fn.NextSibling() {
+		f := fn.(*ast.Footnote)
+		if idx, ok := newIndex[f]; ok {
+			f.Index = idx
+		} else {
+			f.Index = -1
+		}
+	}
+	list.Count = len(newIndex)
+	return result
 }
 
 // FootnoteConfig holds configuration values for the footnote extension.
